@@ -4,6 +4,7 @@ import (
 	"go/constant"
 	"go/token"
 	"go/types"
+	"sort"
 	"strconv"
 	"strings"
 
@@ -19,25 +20,64 @@ import (
 // `if fieldname == "id" { return fallback }`) breaks the clause for the inputs it did not think
 // of, compiles, and passes the tests.
 //
-// The rule takes the place where X is done (the target call) and classifies every branch of
-// the enclosing function that decides whether the target is reached: a confirmed exemption
-// (table, one reason each), a structural test (nil, presence of an entry, kind of definition
-// against a typed constant, the same predicate on both sides), or something new. A predicate of
-// the module is looked into. The same machinery is R13d.exempt's, which starts from the route
+// The rule takes the place where X is done (the target call — in the anchor function or in a
+// function of the module it calls: the branches of the anchor on the way to that call and those
+// of the helper on the way to the target both count; when one call serves both cases and an
+// operand decides which, the places where the operand takes the deciding value) and classifies
+// every branch that decides whether the target is reached:
+//
+//   - a confirmed exemption (tables, one reason each: predicates, texts, kinds of definition). A
+//     test on the kind of definition is resolved to the kinds it exempts — the side of the branch
+//     that misses the target, the universe of the constants of the type, the content of a table
+//     of kinds — and each exempted kind has to be a confirmed one. An entry may demand a call
+//     on the exempted side (the comparison that stands in for the one skipped);
+//   - a structural test: presence of an entry of a map (comma-ok, or the nil-ness of what was
+//     looked up), the test of a counting loop, the same field or predicate on both sides. A
+//     comparison with nil is judged by what is nil: an entry looked up, the error of a call (the
+//     call's own conditions), or a field or parameter of the input — a condition like any other;
+//   - a refusal: the side that misses the target returns an error on every path. What such a
+//     condition singles out is not accepted unseen;
+//   - or something new.
+//
+// A predicate of the module is looked into. What the loops around the target range over is
+// followed to its origin: the function's own input, or a list the function built (the branches
+// that decide what is put on it then decide as well), or the result of a call — whose
+// conditions, or those of the function literal it is handed, choose the items and are
+// classified like the rest. The same machinery is R13d.exempt's, which starts from the route
 // write; this file holds the instances that start from a call.
 
 type decideSpec struct {
 	rule    string
 	anchor  string
 	target  func(r *Run, ci ssa.CallInstruction) bool
-	calls   map[string]string // accepted predicates (suffix of the callee's name) → reason
-	refuted map[string]string // predicates whose use as an exemption is known to be wrong → why
-	strs    map[string]string // accepted string constants a value may be compared with → reason
-	fields  map[string]string // a field compared with the same field of another value → reason
+	choice  func(ci ssa.CallInstruction) ssa.Value // when set: the operand of the target call that makes it the thing decided (the key of a Set)
+	plain   func(v ssa.Value) bool                 // … and the alternatives of that operand which do not (the positional key)
+	calls   map[string]string                      // accepted predicates (suffix of the callee's name) → reason
+	refuted map[string]string                      // predicates whose use as an exemption is known to be wrong → why
+	strs    map[string]string                      // accepted string constants a value may be compared with → reason
+	kinds   map[string]string                      // kinds of definition (values of a typed constant) that may be exempted → reason
+	fields  map[string]string                      // a field compared with the same field of another value → reason
+	passes  map[string]string                      // key of an exemption above → a call (suffix) that every path of the exempted side makes before the next item
 	lenOf   func(t types.Type) bool
 	what    string // "whether the two declarations of a shared type are compared"
 	effect  string // consequence of a new condition
 	minimum int
+}
+
+// decider: one evaluation of a decideSpec.
+type decider struct {
+	r       *Run
+	spec    decideSpec
+	n       int
+	seen    map[ssa.Value]bool
+	keys    map[string]int
+	visited map[*ssa.Function]bool
+	has     map[*ssa.Function]int
+	// the branch whose condition is being classified
+	cur       *ssa.If
+	exempt    int  // index of the successor on which the target is not reached (-1: none)
+	refusing  bool // that side ends in the return of an error on every path
+	resultIdx int  // set while the call behind an Extract is classified: which result counts
 }
 
 func ruleDeciding(spec decideSpec) ruleFn {
@@ -46,195 +86,674 @@ func ruleDeciding(spec decideSpec) ruleFn {
 		if fn == nil {
 			return
 		}
-		var targets []ssa.Instruction
-		for _, ins := range allInstrs(fn) {
-			if ci, ok := ins.(ssa.CallInstruction); ok && spec.target(r, ci) {
-				targets = append(targets, ins)
-			}
-		}
-		if len(targets) == 0 {
-			r.Bad(spec.rule, fnName(fn), "target", r.P.pos(fn.Pos()), "the call that the rule starts from is no longer made in "+fnName(fn)+": the rule cannot be evaluated")
+		d := &decider{r: r, spec: spec, seen: map[ssa.Value]bool{}, keys: map[string]int{}, visited: map[*ssa.Function]bool{}, has: map[*ssa.Function]int{}, exempt: -1, resultIdx: -1}
+		if !d.holdsTarget(fn, 0) {
+			r.Bad(spec.rule, fnName(fn), "target", r.P.pos(fn.Pos()), "the call that the rule starts from is no longer made in "+fnName(fn)+" or in a function of the module it calls: the rule cannot be evaluated")
 			return
 		}
-		n := 0
-		seen := map[ssa.Value]bool{}
-		keys := map[string]int{}
-		report := func(in *ssa.Function, what string, pos token.Pos, reason string, ok bool) {
-			n++
-			key := "condition " + what
-			keys[key]++
-			if keys[key] > 1 {
-				key += "#" + strconv.Itoa(keys[key])
-			}
-			r.Check(ok, spec.rule, fnName(in), key, r.P.pos(pos),
-				"confirmed: "+reason,
-				spec.what+" depends on a condition that is not one of the confirmed ones ("+what+"): "+spec.effect)
-		}
-		resultIdx := -1 // set while the call behind an Extract is classified: which result counts
-		var classify func(in *ssa.Function, v ssa.Value, depth int)
-		classify = func(in *ssa.Function, v ssa.Value, depth int) {
-			if seen[v] || depth > 6 {
+		d.decideIn(fn, 0)
+		r.AtLeast(spec.rule, "conditions deciding "+spec.what, d.n, spec.minimum)
+	}
+}
+
+// targetPoints: where in its function the target call ci counts as reached. Without a choice
+// operand: the call's block. With one (`iMap.Set(i, n, key)`: the key makes the call the
+// de-duplicating one): the places where that operand takes a value that is not plain — the
+// call's block for a direct value, the incoming edge for an alternative of a phi (an edge out
+// of a two-way branch is represented by that branch).
+func (d *decider) targetPoints(ci ssa.CallInstruction) (blocks []*ssa.BasicBlock, ifs []*ssa.If) {
+	if !d.spec.target(d.r, ci) {
+		return nil, nil
+	}
+	if d.spec.choice == nil {
+		return []*ssa.BasicBlock{ci.Block()}, nil
+	}
+	seen := map[ssa.Value]bool{}
+	var expand func(v ssa.Value, at *ssa.BasicBlock, to *ssa.BasicBlock)
+	expand = func(v ssa.Value, at *ssa.BasicBlock, to *ssa.BasicBlock) {
+		if phi, ok := v.(*ssa.Phi); ok {
+			if seen[v] {
 				return
 			}
 			seen[v] = true
-			switch c := v.(type) {
-			case *ssa.UnOp:
-				if c.Op == token.NOT {
-					classify(in, c.X, depth+1)
-					return
+			for i, e := range phi.Edges {
+				expand(e, phi.Block().Preds[i], phi.Block())
+			}
+			return
+		}
+		if d.spec.plain != nil && d.spec.plain(v) {
+			return
+		}
+		blocks = append(blocks, at)
+		if to != nil && len(at.Succs) == 2 {
+			if iff, ok := at.Instrs[len(at.Instrs)-1].(*ssa.If); ok {
+				ifs = append(ifs, iff)
+			}
+		}
+	}
+	expand(d.spec.choice(ci), ci.Block(), nil)
+	return
+}
+
+// holdsTarget: fn makes the target call itself or through functions of the module it calls.
+func (d *decider) holdsTarget(fn *ssa.Function, depth int) bool {
+	if fn == nil || fn.Blocks == nil || depth > 3 {
+		return false
+	}
+	switch d.has[fn] {
+	case 1:
+		return true
+	case 2, 3:
+		return false
+	}
+	d.has[fn] = 3
+	res := false
+	for _, ins := range allInstrs(fn) {
+		ci, ok := ins.(ssa.CallInstruction)
+		if !ok {
+			continue
+		}
+		if b, _ := d.targetPoints(ci); len(b) > 0 {
+			res = true
+			break
+		}
+		if sc := ci.Common().StaticCallee(); sc != nil && inModule(sc) && !d.spec.target(d.r, ci) && d.holdsTarget(sc, depth+1) {
+			res = true
+			break
+		}
+	}
+	if res {
+		d.has[fn] = 1
+	} else {
+		d.has[fn] = 2
+	}
+	return res
+}
+
+// decideIn classifies the branches of fn that decide whether the target is reached: those on
+// the way to the target call (or to the call of a helper that makes it), and, in such a helper,
+// those on the way from its entry to the target.
+func (d *decider) decideIn(fn *ssa.Function, depth int) {
+	if d.visited[fn] {
+		return
+	}
+	d.visited[fn] = true
+	targets := map[*ssa.BasicBlock]bool{}
+	var extra []*ssa.If
+	for _, ins := range allInstrs(fn) {
+		ci, ok := ins.(ssa.CallInstruction)
+		if !ok {
+			continue
+		}
+		if d.spec.target(d.r, ci) {
+			bs, ifs := d.targetPoints(ci)
+			for _, b := range bs {
+				targets[b] = true
+			}
+			extra = append(extra, ifs...)
+			continue
+		}
+		if sc := ci.Common().StaticCallee(); sc != nil && inModule(sc) && d.holdsTarget(sc, depth+1) {
+			targets[ci.Block()] = true
+			d.decideIn(sc, depth+1)
+		}
+	}
+	// the items: what the loops around the target range over is the function's own input — a
+	// list that was filtered on the way is an exemption taken before the loop
+	for _, b := range fn.Blocks {
+		if targets[b] {
+			d.sources(fn, b, targets)
+		}
+	}
+	isExtra := map[*ssa.If]bool{}
+	for _, iff := range extra {
+		isExtra[iff] = true
+	}
+	for _, br := range decidingBranches(fn, targets) {
+		delete(isExtra, br.iff)
+		d.cur, d.exempt = br.iff, br.exempt
+		d.refusing = br.exempt >= 0 && refuses(br.iff.Block().Succs[br.exempt], targets)
+		d.classify(fn, br.iff.Cond, 1, 0)
+	}
+	for _, iff := range extra {
+		if !isExtra[iff] {
+			continue
+		}
+		delete(isExtra, iff)
+		d.cur, d.exempt, d.refusing = iff, -1, false
+		d.classify(fn, iff.Cond, 1, 0)
+	}
+	d.cur, d.exempt, d.refusing = nil, -1, false
+}
+
+// sources: the collections the loops around block b range over, followed to where they come from.
+func (d *decider) sources(fn *ssa.Function, b *ssa.BasicBlock, targets map[*ssa.BasicBlock]bool) {
+	seen := map[ssa.Value]bool{}
+	var judge func(v ssa.Value, depth int)
+	judge = func(v ssa.Value, depth int) {
+		v = viaCell(unwrap(v))
+		if v == nil || seen[v] || depth > 12 {
+			return
+		}
+		seen[v] = true
+		switch x := v.(type) {
+		case *ssa.Parameter, *ssa.FreeVar, *ssa.Global, *ssa.Const, *ssa.MakeMap, *ssa.MakeSlice, *ssa.Alloc:
+			return
+		case *ssa.UnOp:
+			judge(x.X, depth+1)
+		case *ssa.FieldAddr:
+			judge(x.X, depth+1)
+		case *ssa.Field:
+			judge(x.X, depth+1)
+		case *ssa.IndexAddr:
+			judge(x.X, depth+1)
+		case *ssa.Index:
+			judge(x.X, depth+1)
+		case *ssa.Lookup:
+			judge(x.X, depth+1)
+		case *ssa.Extract:
+			judge(x.Tuple, depth+1)
+		case *ssa.Next:
+			if rg, ok := x.Iter.(*ssa.Range); ok {
+				judge(rg.X, depth+1)
+			}
+		case *ssa.Phi:
+			for _, e := range x.Edges {
+				judge(e, depth+1)
+			}
+		case *ssa.Slice:
+			if x.Low != nil || x.High != nil {
+				d.cur, d.exempt, d.refusing = nil, -1, false
+				d.report(fn, "a part of the list the loop ranges over", x.Pos(), "", false)
+				return
+			}
+			judge(x.X, depth+1)
+		case *ssa.Call:
+			if bi, ok := x.Call.Value.(*ssa.Builtin); ok {
+				if bi.Name() == "append" {
+					// a list built by the function itself: what decides whether an item is put on it
+					// decides whether the target is reached for it
+					if !targets[x.Block()] {
+						targets[x.Block()] = true
+						d.sources(fn, x.Block(), targets)
+					}
+					judge(x.Call.Args[0], depth+1)
 				}
-			case *ssa.Phi:
-				for _, e := range c.Edges {
-					if _, isConst := e.(*ssa.Const); !isConst {
-						classify(in, e, depth+1)
+				return
+			}
+			d.cur, d.exempt, d.refusing = nil, -1, false
+			sc := x.Call.StaticCallee()
+			if sc != nil && inModule(sc) && sc.Blocks != nil {
+				// a function of the module: what it (and the function literals in it) branch on
+				// chooses the items; one without branches cannot choose
+				for _, f := range withClosures(sc) {
+					d.conditionsOf(f, -1, 0, 0)
+				}
+				for _, a := range x.Call.Args {
+					if isCollection(a.Type()) {
+						judge(a, depth+1)
 					}
 				}
 				return
-			case *ssa.Extract:
-				switch t := c.Tuple.(type) {
-				case *ssa.Next:
-					return // loop over a map
-				case *ssa.Lookup:
-					report(in, "presence of an entry in "+types.TypeString(t.X.Type(), func(p *types.Package) string { return p.Name() }), c.Pos(), "is there an entry for this key", true)
-					return
-				case *ssa.TypeAssert:
-					report(in, "dynamic type "+types.TypeString(t.AssertedType, func(p *types.Package) string { return p.Name() }), c.Pos(), "", false)
-					return
-				case *ssa.Call:
-					resultIdx = c.Index
-					delete(seen, ssa.Value(t)) // each result of the call is a condition of its own
-					classify(in, t, depth+1)
-					resultIdx = -1
-					return
+			}
+			// a library function: the functions it is handed choose the items; without any, it
+			// may re-order or project collections but is not given anything to choose by
+			plainArgs := true
+			for _, a := range x.Call.Args {
+				var f *ssa.Function
+				switch y := a.(type) {
+				case *ssa.MakeClosure:
+					f, _ = y.Fn.(*ssa.Function)
+				case *ssa.Function:
+					f = y
 				}
-			case *ssa.Lookup:
-				// membership in a set of kinds (`kindsWithMembers[def.Kind]`): the key is of a named
-				// enumeration type, the test is on the kind of definition like a typed constant
-				if mt, ok := c.X.Type().Underlying().(*types.Map); ok && !c.CommaOk {
-					if nt, ok := mt.Key().(*types.Named); ok {
-						if _, basic := nt.Underlying().(*types.Basic); basic {
-							if bt, ok := mt.Elem().Underlying().(*types.Basic); ok && bt.Kind() == types.Bool {
-								return
-							}
-						}
-					}
-				}
-			case *ssa.Call:
-				if b, ok := c.Call.Value.(*ssa.Builtin); ok && b.Name() == "len" {
-					return
-				}
-				name := shortCallee(&c.Call)
-				for k, why := range spec.refuted {
-					if strings.HasSuffix(name, k) && resultIdx <= 0 {
-						n++
-						r.Bad(spec.rule, fnName(in), "condition "+k, r.P.pos(c.Pos()), spec.what+" depends on "+k+": "+why)
-						return
-					}
-				}
-				for k, reason := range spec.calls {
-					if strings.HasSuffix(name, k) {
-						report(in, k, c.Pos(), reason, true)
-						return
-					}
-				}
-				if sc := c.Call.StaticCallee(); sc != nil && inModule(sc) && sc.Blocks != nil && depth < 3 {
-					any := false
-					want := resultIdx
-					resultIdx = -1
-					for _, ins := range allInstrs(sc) {
-						switch x := ins.(type) {
-						case *ssa.If:
-							any = true
-							classify(sc, x.Cond, depth+1)
-						case *ssa.Return:
-							for ri, res := range x.Results {
-								if want >= 0 && ri != want {
-									continue // the caller looks at one result only
-								}
-								if _, isConst := res.(*ssa.Const); !isConst {
-									any = true
-									classify(sc, res, depth+1)
-								}
-							}
-						}
-					}
-					if any {
-						return
-					}
-				}
-				report(in, calleeDesc(&c.Call), c.Pos(), "", false)
-				return
-			case *ssa.BinOp:
-				if isNilConst(c.X) || isNilConst(c.Y) {
-					return
-				}
-				for _, side := range []ssa.Value{c.X, c.Y} {
-					k, isConst := side.(*ssa.Const)
-					if !isConst || k.Value == nil {
+				if f != nil {
+					if f.Blocks == nil {
+						plainArgs = false
 						continue
 					}
-					if k.Value.Kind() == constant.String {
-						if _, plain := k.Type().(*types.Basic); !plain {
-							return // a typed constant such as ast.Union: the kind of definition
+					d.conditionsOf(f, -1, 0, 0)
+					continue
+				}
+				if _, isSig := a.Type().Underlying().(*types.Signature); isSig {
+					plainArgs = false
+					continue
+				}
+				if isCollection(a.Type()) {
+					judge(a, depth+1)
+				} else {
+					plainArgs = false
+				}
+			}
+			if !plainArgs {
+				d.report(fn, "the items chosen by "+calleeDesc(&x.Call), x.Pos(), "", false)
+			}
+		}
+	}
+	for _, h := range fn.Blocks {
+		if l := naturalLoop(h); len(l) == 0 || !l[b] {
+			continue
+		}
+		for _, ins := range h.Instrs {
+			if nx, ok := ins.(*ssa.Next); ok {
+				judge(nx, 0)
+			}
+		}
+		if iff, ok := h.Instrs[len(h.Instrs)-1].(*ssa.If); ok {
+			if bo, ok := iff.Cond.(*ssa.BinOp); ok && bo.Op == token.LSS {
+				if call, ok := bo.Y.(*ssa.Call); ok {
+					if bi, ok := call.Call.Value.(*ssa.Builtin); ok && bi.Name() == "len" {
+						judge(call.Call.Args[0], 0)
+					}
+				}
+			}
+		}
+	}
+}
+
+func isCollection(t types.Type) bool {
+	switch t.Underlying().(type) {
+	case *types.Slice, *types.Map, *types.Array:
+		return true
+	}
+	return false
+}
+
+// conditionsOf: the conditions under which a function of the module answers — every branch
+// of its body and every boolean it returns that is not a constant (want: the one result the
+// caller looks at, or -1).
+func (d *decider) conditionsOf(sc *ssa.Function, want int, sense int, depth int) bool {
+	any := false
+	for _, ins := range allInstrs(sc) {
+		switch x := ins.(type) {
+		case *ssa.If:
+			any = true
+			s := 0
+			if want >= 0 {
+				s = sense * answerSense(x, want)
+			}
+			d.classify(sc, x.Cond, s, depth+1)
+		case *ssa.Return:
+			for ri, res := range x.Results {
+				if want >= 0 && ri != want {
+					continue // the caller looks at one result only
+				}
+				if _, isConst := res.(*ssa.Const); isConst {
+					continue
+				}
+				if bt, ok := res.Type().Underlying().(*types.Basic); !ok || bt.Kind() != types.Bool {
+					continue
+				}
+				any = true
+				s := 0
+				if want >= 0 {
+					s = sense
+				}
+				d.classify(sc, res, s, depth+1)
+			}
+		}
+	}
+	return any
+}
+
+// answerSense: +1 when the true side of the branch answers the constant true in result idx
+// right away, -1 when it answers false, 0 when that cannot be told.
+func answerSense(iff *ssa.If, idx int) int {
+	side := func(b *ssa.BasicBlock) int {
+		if ret, ok := b.Instrs[len(b.Instrs)-1].(*ssa.Return); ok && idx < len(ret.Results) && len(b.Instrs) == 1 {
+			if k, ok := ret.Results[idx].(*ssa.Const); ok && k.Value != nil && k.Value.Kind() == constant.Bool {
+				if constant.BoolVal(k.Value) {
+					return 1
+				}
+				return -1
+			}
+		}
+		return 0
+	}
+	if s := side(iff.Block().Succs[0]); s != 0 {
+		return s
+	}
+	return -side(iff.Block().Succs[1])
+}
+
+func (d *decider) report(in *ssa.Function, what string, pos token.Pos, reason string, ok bool) {
+	d.n++
+	key := "condition " + what
+	d.keys[key]++
+	if d.keys[key] > 1 {
+		key += "#" + strconv.Itoa(d.keys[key])
+	}
+	if !ok && d.refusing {
+		ok, reason = true, "on the side that does not reach it every path returns an error: what the condition singles out is refused, not accepted unseen"
+	} else {
+		reason = "confirmed: " + reason
+	}
+	d.r.Check(ok, d.spec.rule, fnName(in), key, d.r.P.pos(pos),
+		reason,
+		d.spec.what+" depends on a condition that is not one of the confirmed ones ("+what+"): "+d.spec.effect)
+}
+
+// exemption: a confirmed entry of a table is used; when the entry names a call that has to be
+// made on the exempted side (the comparison that justifies the skip), that is checked here.
+func (d *decider) exemption(in *ssa.Function, key, what string, pos token.Pos, reason string) {
+	need := d.spec.passes[key]
+	if need == "" {
+		d.report(in, what, pos, reason, true)
+		return
+	}
+	ok := false
+	if d.cur != nil && d.exempt >= 0 && d.cur.Parent() == in {
+		ok, _ = mustPass(d.cur.Block().Succs[d.exempt], 0, func(ins ssa.Instruction) bool {
+			ci, isCall := ins.(ssa.CallInstruction)
+			return isCall && strings.HasSuffix(shortCallee(ci.Common()), need)
+		})
+	}
+	if ok {
+		d.report(in, what, pos, reason, true)
+		return
+	}
+	d.n++
+	d.r.Bad(d.spec.rule, fnName(in), "condition "+what, d.r.P.pos(pos), d.spec.what+" is decided by "+what+", an exemption that is confirmed only where every path of the exempted side calls "+need+" before the next item (the comparison that stands in for the one skipped); here a path does not: "+d.spec.effect)
+}
+
+// kindUniverse: the values of the constants of the named type t that its package declares.
+func kindUniverse(t types.Type) []string {
+	nt, ok := t.(*types.Named)
+	if !ok || nt.Obj().Pkg() == nil {
+		return nil
+	}
+	var out []string
+	sc := nt.Obj().Pkg().Scope()
+	for _, name := range sc.Names() {
+		if k, ok := sc.Lookup(name).(*types.Const); ok && types.Identical(k.Type(), t) && k.Val().Kind() == constant.String {
+			out = append(out, constant.StringVal(k.Val()))
+		}
+	}
+	sort.Strings(out)
+	return out
+}
+
+// kindTest: the kinds for which the test v is true, exempted or not according to the side of
+// the branch. sense: +1 v true means the branch condition is true, -1 the opposite.
+func (d *decider) kindTest(in *ssa.Function, t types.Type, trueFor map[string]bool, sense int, pos token.Pos) {
+	uni := kindUniverse(t)
+	if sense == 0 || d.exempt < 0 || d.cur == nil || len(uni) == 0 {
+		names := []string{}
+		for k := range trueFor {
+			names = append(names, k)
+		}
+		sort.Strings(names)
+		d.report(in, "a test on the kind of definition ("+strings.Join(names, ", ")+") of which the rule cannot tell which kinds it exempts", pos, "", false)
+		return
+	}
+	trueSide := 0
+	if sense < 0 {
+		trueSide = 1
+	}
+	for _, k := range uni {
+		if trueFor[k] != (trueSide == d.exempt) {
+			continue
+		}
+		if reason, known := d.spec.kinds[k]; known {
+			d.exemption(in, k, "kind "+k, pos, reason)
+		} else {
+			d.report(in, "kind "+k, pos, "", false)
+		}
+	}
+}
+
+// constKeysTrue: the constant keys that the map value m (a package-level table or a literal)
+// is given the value true for; ok is false when m is not such a table.
+func constKeysTrue(r *Run, m ssa.Value) (map[string]bool, bool) {
+	m = unwrap(m)
+	var mk *ssa.MakeMap
+	switch x := m.(type) {
+	case *ssa.MakeMap:
+		mk = x
+	case *ssa.UnOp:
+		g, ok := x.X.(*ssa.Global)
+		if !ok || x.Op != token.MUL {
+			return nil, false
+		}
+		for _, fn := range r.P.Funcs {
+			for _, ins := range allInstrs(fn) {
+				st, ok := ins.(*ssa.Store)
+				if !ok || st.Addr != ssa.Value(g) {
+					continue
+				}
+				if mk != nil {
+					return nil, false
+				}
+				mk, _ = unwrap(st.Val).(*ssa.MakeMap)
+				if mk == nil {
+					return nil, false
+				}
+			}
+		}
+	}
+	if mk == nil || mk.Referrers() == nil {
+		return nil, false
+	}
+	out := map[string]bool{}
+	for _, ref := range *mk.Referrers() {
+		switch x := ref.(type) {
+		case *ssa.MapUpdate:
+			k, ok1 := x.Key.(*ssa.Const)
+			v, ok2 := x.Value.(*ssa.Const)
+			if !ok1 || !ok2 || k.Value == nil || v.Value == nil || k.Value.Kind() != constant.String || v.Value.Kind() != constant.Bool {
+				return nil, false
+			}
+			if constant.BoolVal(v.Value) {
+				out[constant.StringVal(k.Value)] = true
+			}
+		case *ssa.Store, *ssa.Lookup, *ssa.DebugRef:
+		default:
+			if _, isCall := ref.(ssa.CallInstruction); isCall {
+				continue // len(), a read-only helper
+			}
+			return nil, false
+		}
+	}
+	// written anywhere else?
+	for _, fn := range r.P.Funcs {
+		for _, ins := range allInstrs(fn) {
+			if mu, ok := ins.(*ssa.MapUpdate); ok && mu.Map != ssa.Value(mk) {
+				if ld, ok := unwrap(mu.Map).(*ssa.UnOp); ok {
+					if lm, ok := m.(*ssa.UnOp); ok && ld.X == lm.X {
+						return nil, false
+					}
+				}
+			}
+		}
+	}
+	return out, true
+}
+
+func (d *decider) classify(in *ssa.Function, v ssa.Value, sense int, depth int) {
+	spec, r := d.spec, d.r
+	if d.seen[v] || depth > 6 {
+		return
+	}
+	d.seen[v] = true
+	short := func(p *types.Package) string { return p.Name() }
+	switch c := v.(type) {
+	case *ssa.UnOp:
+		if c.Op == token.NOT {
+			d.classify(in, c.X, -sense, depth+1)
+			return
+		}
+	case *ssa.Phi:
+		for _, e := range c.Edges {
+			if _, isConst := e.(*ssa.Const); !isConst {
+				d.classify(in, e, sense, depth+1)
+			}
+		}
+		return
+	case *ssa.Extract:
+		switch t := c.Tuple.(type) {
+		case *ssa.Next:
+			return // loop over a map
+		case *ssa.Lookup:
+			d.report(in, "presence of an entry in "+types.TypeString(t.X.Type(), short), c.Pos(), "is there an entry for this key", true)
+			return
+		case *ssa.TypeAssert:
+			d.report(in, "dynamic type "+types.TypeString(t.AssertedType, short), c.Pos(), "", false)
+			return
+		case *ssa.Call:
+			d.resultIdx = c.Index
+			delete(d.seen, ssa.Value(t)) // each result of the call is a condition of its own
+			d.classify(in, t, sense, depth+1)
+			d.resultIdx = -1
+			return
+		}
+	case *ssa.Lookup:
+		// membership in a set of kinds (`kindsWithMembers[def.Kind]`): the key is of a named
+		// enumeration type; the kinds it exempts are those of the table (or the others)
+		if mt, ok := c.X.Type().Underlying().(*types.Map); ok && !c.CommaOk {
+			if nt, ok := mt.Key().(*types.Named); ok {
+				if _, basic := nt.Underlying().(*types.Basic); basic {
+					if bt, ok := mt.Elem().Underlying().(*types.Basic); ok && bt.Kind() == types.Bool {
+						if keys, ok := constKeysTrue(r, c.X); ok {
+							d.kindTest(in, nt, keys, sense, c.Pos())
+						} else {
+							d.report(in, "membership in a set of kinds whose content the rule cannot read", c.Pos(), "", false)
 						}
-						reason, known := spec.strs[constant.StringVal(k.Value)]
-						report(in, "on the text "+k.Value.ExactString(), c.Pos(), reason, known)
 						return
 					}
-					// a number: a length or a count
-					other := c.X
-					if other == side {
-						other = c.Y
+				}
+			}
+		}
+	case *ssa.Call:
+		if b, ok := c.Call.Value.(*ssa.Builtin); ok && b.Name() == "len" {
+			return
+		}
+		name := shortCallee(&c.Call)
+		for k, why := range spec.refuted {
+			if strings.HasSuffix(name, k) && d.resultIdx <= 0 {
+				d.n++
+				r.Bad(spec.rule, fnName(in), "condition "+k, r.P.pos(c.Pos()), spec.what+" depends on "+k+": "+why)
+				return
+			}
+		}
+		for k, reason := range spec.calls {
+			if strings.HasSuffix(name, k) {
+				d.exemption(in, k, k, c.Pos(), reason)
+				return
+			}
+		}
+		if sc := c.Call.StaticCallee(); sc != nil && inModule(sc) && sc.Blocks != nil && depth < 3 {
+			want := d.resultIdx
+			d.resultIdx = -1
+			if want < 0 && sc.Signature.Results().Len() == 1 {
+				want = 0
+			}
+			if d.conditionsOf(sc, want, sense, depth) {
+				return
+			}
+		}
+		d.report(in, calleeDesc(&c.Call), c.Pos(), "", false)
+		return
+	case *ssa.BinOp:
+		if isNilConst(c.X) || isNilConst(c.Y) {
+			o := c.X
+			if isNilConst(o) {
+				o = c.Y
+			}
+			d.classifyNil(in, c, o, depth)
+			return
+		}
+		if c.Op == token.LSS && len(naturalLoop(c.Block())) > 0 {
+			// the test of a counting loop (`for i, x := range list`): the index is a phi of the
+			// loop's header; the loop ends when the list does
+			isIndex := false
+			for _, op := range operandsOf(c) {
+				if step, ok := op.(*ssa.BinOp); ok && step.Op == token.ADD {
+					if phi, ok := step.X.(*ssa.Phi); ok && phi.Block() == c.Block() {
+						isIndex = true
 					}
-					if call, ok := unwrap(other).(*ssa.Call); ok {
-						if b, ok := call.Call.Value.(*ssa.Builtin); ok && b.Name() == "len" {
-							if spec.lenOf == nil || spec.lenOf(call.Call.Args[0].Type()) {
-								return
-							}
-							report(in, "on the length of a "+types.TypeString(call.Call.Args[0].Type(), func(p *types.Package) string { return p.Name() }), c.Pos(), "", false)
-							return
-						}
+				}
+				if phi, ok := op.(*ssa.Phi); ok && phi.Block() == c.Block() {
+					isIndex = true
+				}
+			}
+			if isIndex {
+				return
+			}
+		}
+		for _, side := range []ssa.Value{c.X, c.Y} {
+			k, isConst := side.(*ssa.Const)
+			if !isConst || k.Value == nil {
+				continue
+			}
+			if k.Value.Kind() == constant.String {
+				if _, plain := k.Type().(*types.Basic); !plain && (c.Op == token.EQL || c.Op == token.NEQ) {
+					// a typed constant such as ast.Union: the kind of definition
+					s := sense
+					if c.Op == token.NEQ {
+						s = -s
 					}
-					if spec.lenOf == nil {
+					d.kindTest(in, k.Type(), map[string]bool{constant.StringVal(k.Value): true}, s, c.Pos())
+					return
+				}
+				if reason, known := spec.strs[constant.StringVal(k.Value)]; known {
+					d.exemption(in, constant.StringVal(k.Value), "on the text "+k.Value.ExactString(), c.Pos(), reason)
+				} else {
+					d.report(in, "on the text "+k.Value.ExactString(), c.Pos(), "", false)
+				}
+				return
+			}
+			// a number: a length or a count
+			other := c.X
+			if other == side {
+				other = c.Y
+			}
+			if call, ok := unwrap(other).(*ssa.Call); ok {
+				if b, ok := call.Call.Value.(*ssa.Builtin); ok && b.Name() == "len" {
+					if spec.lenOf == nil || spec.lenOf(call.Call.Args[0].Type()) {
 						return
 					}
-					report(in, "on a number", c.Pos(), "", false)
-					return
-				}
-				// the same field of two values, the same predicate on two values
-				fx, fy := loadedField(c.X), loadedField(c.Y)
-				if fx != "" && fx == fy {
-					reason, known := spec.fields[fx]
-					report(in, "field "+fx+" of both compared", c.Pos(), reason, known)
-					return
-				}
-				cx, okx := unwrap(c.X).(*ssa.Call)
-				cy, oky := unwrap(c.Y).(*ssa.Call)
-				if okx && oky && cx.Call.StaticCallee() != nil && cx.Call.StaticCallee() == cy.Call.StaticCallee() {
-					name := fnName(cx.Call.StaticCallee())
-					for k, reason := range spec.calls {
-						if strings.HasSuffix(name, k) {
-							report(in, k+" of both compared", c.Pos(), reason, true)
-							return
-						}
-					}
-					report(in, name+" of both compared", c.Pos(), "", false)
-					return
-				}
-				if bt, ok := c.X.Type().Underlying().(*types.Basic); ok && bt.Info()&types.IsInteger != 0 && spec.lenOf == nil {
+					d.report(in, "on the length of a "+types.TypeString(call.Call.Args[0].Type(), short), c.Pos(), "", false)
 					return
 				}
 			}
-			if ins, ok := v.(ssa.Instruction); ok {
-				report(in, "of an unrecognised form ("+v.String()+")", ins.Pos(), "", false)
-			} else {
-				report(in, "of an unrecognised form ("+v.Name()+")", fn.Pos(), "", false)
+			if spec.lenOf == nil {
+				return
 			}
+			d.report(in, "on a number", c.Pos(), "", false)
+			return
 		}
-		for _, iff := range decidingBranches(fn, targets) {
-			classify(fn, iff.Cond, 0)
+		// the same field of two values, the same predicate on two values
+		fx, fy := loadedField(c.X), loadedField(c.Y)
+		if fx != "" && fx == fy {
+			reason, known := spec.fields[fx]
+			d.report(in, "field "+fx+" of both compared", c.Pos(), reason, known)
+			return
 		}
-		r.AtLeast(spec.rule, "conditions deciding "+spec.what, n, spec.minimum)
+		cx, okx := unwrap(c.X).(*ssa.Call)
+		cy, oky := unwrap(c.Y).(*ssa.Call)
+		if okx && oky && cx.Call.StaticCallee() != nil && cx.Call.StaticCallee() == cy.Call.StaticCallee() {
+			name := fnName(cx.Call.StaticCallee())
+			for k, reason := range spec.calls {
+				if strings.HasSuffix(name, k) {
+					d.report(in, k+" of both compared", c.Pos(), reason, true)
+					return
+				}
+			}
+			d.report(in, name+" of both compared", c.Pos(), "", false)
+			return
+		}
+		if bt, ok := c.X.Type().Underlying().(*types.Basic); ok && bt.Info()&types.IsInteger != 0 {
+			if spec.lenOf == nil {
+				return
+			}
+			d.report(in, "a comparison of two numbers (lengths, counts)", c.Pos(), "", false)
+			return
+		}
+	}
+	if ins, ok := v.(ssa.Instruction); ok {
+		d.report(in, "of an unrecognised form ("+v.String()+")", ins.Pos(), "", false)
+	} else {
+		d.report(in, "of an unrecognised form ("+v.Name()+")", in.Pos(), "", false)
 	}
 }
 
@@ -255,15 +774,66 @@ func loadedField(v ssa.Value) string {
 	return ""
 }
 
-// decidingBranches: the branches of fn that decide whether one of the target instructions is
-// reached within the current round of the loop they stand in: from one side a target can be
-// reached and from the other not, or it can be avoided from one side and not from the other.
-func decidingBranches(fn *ssa.Function, targets []ssa.Instruction) []*ssa.If {
-	isTarget := map[*ssa.BasicBlock]bool{}
-	for _, t := range targets {
-		isTarget[t.Block()] = true
+// classifyNil: a comparison with nil. What is nil decides what the test means: the entry of a
+// map that was looked up (presence), the error of a call (the call failed: its own conditions),
+// or a field or parameter of the input (a condition on the data like any other).
+func (d *decider) classifyNil(in *ssa.Function, c *ssa.BinOp, o ssa.Value, depth int) {
+	short := func(p *types.Package) string { return p.Name() }
+	seen := map[ssa.Value]bool{}
+	var walk func(o ssa.Value)
+	walk = func(o ssa.Value) {
+		o = viaCell(unwrap(o))
+		if seen[o] {
+			return
+		}
+		seen[o] = true
+		switch x := o.(type) {
+		case *ssa.Const:
+			return
+		case *ssa.Lookup:
+			d.report(in, "presence of an entry in "+types.TypeString(x.X.Type(), short), c.Pos(), "is there an entry for this key", true)
+		case *ssa.Phi:
+			for _, e := range x.Edges {
+				walk(e)
+			}
+		case *ssa.Extract:
+			switch t := x.Tuple.(type) {
+			case *ssa.Lookup:
+				d.report(in, "presence of an entry in "+types.TypeString(t.X.Type(), short), c.Pos(), "is there an entry for this key", true)
+			case *ssa.Call:
+				d.resultIdx = x.Index
+				delete(d.seen, ssa.Value(t))
+				d.classify(in, t, 0, depth+1)
+				d.resultIdx = -1
+			default:
+				d.report(in, "whether "+x.Name()+" is nil", c.Pos(), "", false)
+			}
+		case *ssa.Call:
+			delete(d.seen, ssa.Value(x))
+			d.classify(in, x, 0, depth+1)
+		case *ssa.Parameter:
+			d.report(in, "whether the parameter "+x.Name()+" is nil", c.Pos(), "", false)
+		default:
+			if f := loadedField(o); f != "" {
+				d.report(in, "whether the field "+f+" is nil", c.Pos(), "", false)
+				return
+			}
+			d.report(in, "whether "+o.Name()+" is nil", c.Pos(), "", false)
+		}
 	}
-	var out []*ssa.If
+	walk(o)
+}
+
+type decidingBranch struct {
+	iff    *ssa.If
+	exempt int // the successor from which the target is not reached (or can be avoided while it cannot from the other)
+}
+
+// decidingBranches: the branches of fn that decide whether one of the target blocks is reached
+// within the current round of the loop they stand in: from one side a target can be reached and
+// from the other not, or it can be avoided from one side and not from the other.
+func decidingBranches(fn *ssa.Function, isTarget map[*ssa.BasicBlock]bool) []decidingBranch {
+	var out []decidingBranch
 	for _, b := range fn.Blocks {
 		iff, ok := b.Instrs[len(b.Instrs)-1].(*ssa.If)
 		if !ok {
@@ -320,12 +890,93 @@ func decidingBranches(fn *ssa.Function, targets []ssa.Instruction) []*ssa.If {
 			return walk(from)
 		}
 		s0, s1 := b.Succs[0], b.Succs[1]
-		if reach(s0) == reach(s1) && avoid(s0) == avoid(s1) {
+		r0, r1, a0, a1 := reach(s0), reach(s1), avoid(s0), avoid(s1)
+		if r0 == r1 && a0 == a1 {
 			continue
 		}
-		out = append(out, iff)
+		br := decidingBranch{iff, -1}
+		switch {
+		case r0 != r1 && !r0:
+			br.exempt = 0
+		case r0 != r1 && !r1:
+			br.exempt = 1
+		case a0:
+			br.exempt = 0
+		default:
+			br.exempt = 1
+		}
+		out = append(out, br)
 	}
 	return out
+}
+
+// refuses: every path from block b ends in the return of an error that is not nil, and none
+// reaches a target.
+func refuses(b *ssa.BasicBlock, isTarget map[*ssa.BasicBlock]bool) bool {
+	fn := b.Parent()
+	res := fn.Signature.Results()
+	if res.Len() == 0 || !isErrorish(res.At(res.Len()-1).Type()) {
+		return false
+	}
+	seen := map[*ssa.BasicBlock]bool{}
+	var walk func(b *ssa.BasicBlock) bool
+	walk = func(b *ssa.BasicBlock) bool {
+		if isTarget[b] {
+			return false
+		}
+		if seen[b] {
+			return true
+		}
+		seen[b] = true
+		if ret, ok := b.Instrs[len(b.Instrs)-1].(*ssa.Return); ok {
+			vals := retVals(ret)
+			return len(vals) > 0 && notNilAt(vals[len(vals)-1], b)
+		}
+		for _, s := range b.Succs {
+			if !walk(s) {
+				return false
+			}
+		}
+		return true
+	}
+	return walk(b)
+}
+
+// notNilAt: the error value v is known not to be nil in block b: it is made there (errors.New,
+// fmt.Errorf, a value put into the interface), or b lies on the not-nil side of a test of v.
+func notNilAt(v ssa.Value, b *ssa.BasicBlock) bool {
+	switch x := v.(type) {
+	case *ssa.MakeInterface:
+		return true
+	case *ssa.Const:
+		return false
+	case *ssa.Call:
+		switch calleeName(&x.Call) {
+		case "fmt.Errorf", "errors.New":
+			return true
+		}
+	}
+	for _, blk := range b.Parent().Blocks {
+		iff, ok := blk.Instrs[len(blk.Instrs)-1].(*ssa.If)
+		if !ok {
+			continue
+		}
+		bo, ok := iff.Cond.(*ssa.BinOp)
+		if !ok || (bo.Op != token.NEQ && bo.Op != token.EQL) {
+			continue
+		}
+		if !(bo.X == v && isNilConst(bo.Y)) && !(bo.Y == v && isNilConst(bo.X)) {
+			continue
+		}
+		side := blk.Succs[0]
+		if bo.Op == token.EQL {
+			side = blk.Succs[1]
+		}
+		if len(side.Preds) == 1 && (side == b || side.Dominates(b)) {
+			return true
+		}
+	}
+	return false
 }
 
 func callTo(suffixes ...string) func(r *Run, ci ssa.CallInstruction) bool {
@@ -341,6 +992,13 @@ func callTo(suffixes ...string) func(r *Run, ci ssa.CallInstruction) bool {
 }
 
 // R13o.exempt — mergeTypes: which pairs of declarations are merged field by field.
+//
+// The two Node entries: the reason they were confirmed under ("the Node interface is the same
+// everywhere by construction") was false — nothing made it so, and two services could declare
+// different Node interfaces (fifth audit). Since repair f3eef47 mergeTypes compares the fields
+// of the two Node declarations (lo.Difference over their signatures) and refuses a difference
+// before it skips the pair; the entry now demands that comparison on the skipping side. The
+// same holds for unions (member lists compared before the skip).
 var ruleMergeExemptions = ruleDeciding(decideSpec{
 	rule:   "R13o.exempt",
 	anchor: "merger.mergeTypes",
@@ -348,15 +1006,25 @@ var ruleMergeExemptions = ruleDeciding(decideSpec{
 	calls: map[string]string{
 		"common.IsBuiltinName":             "built-in names are the gateway's own",
 		"common.IsRootObjectName":          "root types are merged by mergeRootObjects (both calls are targets)",
-		"common.IsNodeInterfaceName":       "the Node interface is the same everywhere by construction (R13d.sig)",
+		"common.IsNodeInterfaceName":       "the two declarations of the Node interface are compared field by field just before the skip and a difference is refused (repair f3eef47; the comparison itself is R13o's members-compared obligation)",
 		"merger.isImplementsNodeInterface": "a type is a Node type in all services or in none: the difference is an error",
 	},
 	strs: map[string]string{
-		"Node": "the Node interface is the same everywhere by construction (R13d.sig)",
+		"Node": "the two declarations of the Node interface are compared field by field just before the skip and a difference is refused (repair f3eef47; the comparison itself is R13o's members-compared obligation)",
+	},
+	kinds: map[string]string{
+		"SCALAR": "a scalar has no fields or members to compare: the later declaration takes the place of the earlier",
+		"UNION":  "the member lists of the two declarations are compared before the skip and a difference is refused (R13o's members-compared obligation)",
+	},
+	passes: map[string]string{
+		"Node":                       "lo.Difference",
+		"common.IsNodeInterfaceName": "lo.Difference",
+		"UNION":                      "lo.Difference",
 	},
 	fields: map[string]string{
 		"Kind": "declarations of different kinds are refused",
 	},
+	lenOf:   func(t types.Type) bool { return false }, // no pair is exempted for the size of anything
 	what:    "whether the two declarations of a shared type are compared field by field",
 	effect:  "a pair of declarations for which it decides against the comparison is accepted unseen — overlapping fields of a Node type, conflicting field types — and which service a field is routed to then depends on the order in which the services are listed",
 	minimum: 3,
@@ -373,8 +1041,8 @@ var ruleRouteLookupExemptions = ruleDeciding(decideSpec{
 	anchor: "planner.(*PlanningContext).GetURL",
 	target: callTo("merger.(TypeURLMap).Get"),
 	calls: map[string]string{
-		"common.IsBuiltinName":                        "introspection names are answered by the gateway itself",
-		"common.IsRootObjectName":                     "fields of root types are always looked up",
+		"common.IsBuiltinName":    "introspection names are answered by the gateway itself",
+		"common.IsRootObjectName": "fields of root types are always looked up",
 	},
 	refuted: map[string]string{
 		"merger.(TypeURLMap).GetTypeIsImplementsNode": "every field of a type that is known but not a Node type is left with the enclosing step's service without a look at the routing table; the merge accepts a plain type that two services declare with disjoint fields, so a field of the other declaration is sent to a service that does not declare it and never reaches its owner",
@@ -393,15 +1061,17 @@ var ruleDedupConditions = ruleDeciding(decideSpec{
 	anchor: "executor.(*DepthExecutor).setIMap",
 	target: func(r *Run, ci ssa.CallInstruction) bool {
 		c := ci.Common()
-		if !strings.HasSuffix(shortCallee(c), "indexMap).Set") || len(c.Args) == 0 {
-			return false
-		}
-		// the de-duplicating Set: its key is made of the id and the query, not of the position
-		// (the other Set of the function is keyed by strconv.Itoa(index))
-		if k, ok := unwrap(c.Args[len(c.Args)-1]).(*ssa.Call); ok && strings.HasSuffix(calleeName(&k.Call), "strconv.Itoa") {
-			return false
-		}
-		return true
+		return strings.HasSuffix(shortCallee(c), "indexMap).Set") && len(c.Args) > 0
+	},
+	// the de-duplicating Set: its key is made of the id and the query, not of the position (the
+	// other key of the function is strconv.Itoa(index))
+	choice: func(ci ssa.CallInstruction) ssa.Value {
+		a := ci.Common().Args
+		return a[len(a)-1]
+	},
+	plain: func(v ssa.Value) bool {
+		k, ok := unwrap(v).(*ssa.Call)
+		return ok && strings.HasSuffix(calleeName(&k.Call), "strconv.Itoa")
 	},
 	calls: map[string]string{
 		"common.IsRootObjectName": "child steps (lookups by id) are de-duplicated, root steps are sent as they are",
